@@ -337,6 +337,55 @@ def line_offsets(ctx):
                     f.file, loop.lineno)
 
 
+    # one convention for what a line is: the records' line numbers are
+    # computed by convert_index_to_line_col, the parser numbers lines by
+    # split(sep); str.splitlines() breaks at more characters (FF, VT, FS,
+    # GS, RS, NEL, U+2028/9, lone CR), which may stand in a string literal
+    # or a comment
+    rule_s = 'C11.one-line-separator-convention'
+    ctx.rule(rule_s, 'the function that turns an input offset into (line, '
+             'column) counts lines by the separator parse_string splits on, '
+             'and no function on the source-text path uses str.splitlines()')
+    conv = repo.func('qbee.utils', 'convert_index_to_line_col')
+    consts_ = {const(c) for c in ast.walk(conv.node)
+               if isinstance(c, ast.Constant) and isinstance(c.value, str)}
+    construct = f'{conv.file}:convert_index_to_line_col:separator'
+    ctx.instance(rule_s, construct, sample={'separator': sep,
+                                            'mentions_separator':
+                                            sep in consts_})
+    if isinstance(sep, str) and sep not in consts_:
+        # not decisive alone (a regex or a helper may carry the separator)
+        ctx.observe(f'{construct}: convert_index_to_line_col does not '
+                    f'mention {sep!r}, the separator parse_string numbers '
+                    f'lines with')
+    n_sl = 0
+    for g in repo.all_functions():
+        on_path = g is conv or g.module is f.module
+        for c in ast.walk(g.node):
+            if isinstance(c, ast.Call) and \
+                    isinstance(c.func, ast.Attribute) and \
+                    c.func.attr == 'splitlines':
+                recv = unparse(c.func.value)
+                if on_path or 'source' in recv or 'input_string' in recv:
+                    n_sl += 1
+                    cs = f'{g.file}:{g.qualname}:splitlines'
+                    ctx.instance(rule_s, cs)
+                    ctx.finding(rule_s, cs,
+                                f'{g.qualname} divides `{recv[:40]}` into '
+                                f'lines with str.splitlines(), which also '
+                                f'breaks at form feed, VT, FS/GS/RS, NEL, '
+                                f'U+2028/9 and a lone CR; the parser numbers '
+                                f'lines by split({sep!r}), so every record '
+                                f'after such a character gets a later line',
+                                g.file, c.lineno)
+    # positive control for the expected-zero scan
+    probe = ast.parse('def p(source):\n    return source.splitlines()')
+    if not any(isinstance(c, ast.Call) and
+               isinstance(c.func, ast.Attribute) and
+               c.func.attr == 'splitlines' for c in ast.walk(probe)):
+        raise AnalysisError('self-check failed: splitlines probe')
+
+
 def replacement_keeps_location(ctx):
     """The passes rewrite nodes (folded constants, `f = expr` inside a
     FUNCTION -> ReturnValueSetStmt) through Node.replace_child; the
